@@ -4,12 +4,13 @@ import random
 import vf
 
 
-def gen(ctx, cfg, res, simulate=None, limit=None, timeout=900):
+def gen(ctx, cfg, res, simulate=None, limit=None, timeout=900, equiv="none"):
     r = ctx.tlc("ConcMC", cfg, workers=1 if simulate else min(vf.NCPU, 8), timeout=timeout,
                 simulate=simulate, extra=["-depth", "80"] if simulate else None)
     cases = r.cases()
     for c in cases:
         c["res"] = res
+        c["equiv"] = equiv
     # distinct schedules only (simulation may repeat)
     seen, out = set(), []
     for c in cases:
@@ -23,11 +24,11 @@ def gen(ctx, cfg, res, simulate=None, limit=None, timeout=900):
     return out
 
 
-def attacks(ctx, cfg, res, key, limit, simulate=None):
+def attacks(ctx, cfg, res, key, limit, simulate=None, equiv="none"):
     """Schedules of a named-deviation variant in which the specification itself ends in a bad state
     (expect[key] is false): deterministic attacks on the property.  On code that follows the repaired
     design they cannot be followed (drift) and the run is judged anyway."""
-    cs = [c for c in gen(ctx, cfg, res, simulate=simulate, timeout=1800) if not c["expect"][key]]
+    cs = [c for c in gen(ctx, cfg, res, simulate=simulate, timeout=1800, equiv=equiv) if not c["expect"][key]]
     rnd = random.Random(ctx.seed + 5)
     if len(cs) > limit:
         cs = rnd.sample(cs, limit)
